@@ -89,6 +89,8 @@ ClassTab ==
     "Out" :> K(TRUE, {1, 2}, 2, 64, 0, {}, 2, {}) @@
     "ReplaceOut" :> K(TRUE, {1, 2}, 2, 64, 0, {}, 2, {}) @@
     "LocalOut" :> K(TRUE, {1, 2}, 1, 64, 0, {}, 1, {}) @@
+    "OffsetOut" :> K(TRUE, {2}, 2, 64, 0, {}, 2, {}) @@
+    "XOut" :> K(TRUE, {1, 2}, 3, 64, 0, {}, 3, {}) @@
     "LocalBuf" :> W(K(TRUE, {0}, 2, 2, 1, {}, 0, {}), 1) @@
     "SetBuf" :> W(K(TRUE, {0}, 4, 64, 1, {}, 0, {}), 0) @@
     "ClearBuf" :> W(K(TRUE, {0}, 1, 1, 1, {}, 0, {}), 0) @@
@@ -121,7 +123,7 @@ InsAttr(ins, ctl, at) ==
         los == [j \in 1..Len(A) |-> A[j].lo]
         his == [j \in 1..Len(A) |-> A[j].hi]
         allmc == \A j \in 1..Len(A) : A[j].mc
-    IN  CASE ins.op \in {"gen", "mce"} -> [lo |-> ins.rate, hi |-> ins.rate, mc |-> FALSE, mz |-> FALSE, mag |-> 0]
+    IN  CASE ins.op \in {"gen", "mce", "sinkn"} -> [lo |-> ins.rate, hi |-> ins.rate, mc |-> FALSE, mz |-> FALSE, mag |-> 0]
           [] ins.op = "bad" -> [lo |-> 0, hi |-> 0, mc |-> TRUE, mz |-> TRUE, mag |-> MagCap + 1]
           [] ins.op = "un" -> [lo |-> A[1].lo, hi |-> A[1].hi, mc |-> A[1].mc,
                                mz |-> IF ins.sel = "neg" THEN A[1].mz ELSE A[1].mc,
@@ -165,6 +167,12 @@ InsShapeOK(prog, n) ==
          \* C02 only: a value that is no valid unit input (NaN, text, None, empty list) ...
          [] ins.op = "bad" -> ins.sel \in {"nan", "str", "none", "empty"} /\ Len(ins.a) = 0 /\ ins.nout = 1
          \* ... and a constructor called with (nested) lists of operands: nout result channels
+         \* ... an output unit whose channel array is given as NESTED lists (sel names the nesting); every leaf
+         \* becomes a channel of one of the output units the call expands to, so the rate requirement of the
+         \* class applies to every operand position exactly as for the flat call
+         [] ins.op = "sinkn" -> /\ ins.cls \in ClassNames /\ ClassTab[ins.cls].nout = 0 /\ ClassTab[ins.cls].audFrom > 0
+                                /\ ins.rate \in ClassTab[ins.cls].rates /\ ins.nout = 0
+                                /\ Len(ins.a) >= ClassTab[ins.cls].lo + 1 /\ ins.sel \in {"head", "tail", "deep"}
          [] ins.op = "mce" -> ins.cls \in ClassNames /\ ins.rate \in ClassTab[ins.cls].rates /\ ins.nout \in 1..64
          [] OTHER -> FALSE
 \* the instruction is inside the fragment whose meaning this spec decides exactly
@@ -179,7 +187,7 @@ InsDecidable(prog, n, at) ==
                 ~(A[1].mc /\ A[2].mc) /\ ~(ins.a[2].k = "c" /\ ins.a[2].i = 0)
          [] ins.op = "bin" /\ ins.sel \in Comparisons -> ~A[1].mc
          [] ins.op = "bin" /\ ins.sel \notin ({"+", "-", "*", "/"} \cup Comparisons) -> ~(A[1].mc /\ A[2].mc)
-         [] ins.op \in {"bad", "mce"} -> FALSE
+         [] ins.op \in {"bad", "mce", "sinkn"} -> FALSE
          [] OTHER -> TRUE
 ProgShapeOK(prog) ==
     /\ \A n \in 1..Len(prog.ins) : InsShapeOK(prog, n)
@@ -191,10 +199,11 @@ Decidable(prog) ==
 (* rate requirements of the unit classes (what the server needs; a definition violating them is
    invalid).  Certainly satisfied / certainly violated / depends on constant folding.            *)
 GenIns(prog) == {n \in 1..Len(prog.ins) : prog.ins[n].op = "gen"}
+UnitIns(prog) == {n \in 1..Len(prog.ins) : prog.ins[n].op \in {"gen", "sinkn"}}     \* instructions that make units of a class
 NeedAudio(ins, j) == ins.rate = 2 /\ LET c == ClassTab[ins.cls] IN j \in c.aud \/ (c.audFrom > 0 /\ j >= c.audFrom)
 NeedSame(ins, j) == j \in ClassTab[ins.cls].same
 RateSure(prog, at) ==           \* every requirement holds whatever is folded
-    \A n \in GenIns(prog) : LET ins == prog.ins[n] IN \A j \in 1..Len(ins.a) :
+    \A n \in UnitIns(prog) : LET ins == prog.ins[n] IN \A j \in 1..Len(ins.a) :
         LET a == OpAttr(ins.a[j], prog.ctl, at) IN
         /\ NeedAudio(ins, j) => (a.lo = 2 \/ (ins.a[j].k = "c" /\ ins.a[j].i = 0 /\ ClassTab[ins.cls].audFrom > 0))
         /\ NeedSame(ins, j) => a.lo = ins.rate /\ a.hi = ins.rate
@@ -210,11 +219,11 @@ RECURSIVE CertFrom(_, _, _, _)
 CertFrom(prog, at, n, acc) ==
     IF n = 0 THEN acc
     ELSE LET ins == prog.ins[n]
-             live == n \in acc \/ (ins.op = "gen" /\ ClassTab[ins.cls].se)
+             live == n \in acc \/ (ins.op \in {"gen", "sinkn"} /\ ClassTab[ins.cls].se)
          IN CertFrom(prog, at, n - 1, IF live THEN acc \cup {n} \cup KeptRefs(ins, prog.ctl, at) ELSE acc)
 CertLive(prog, at) == CertFrom(prog, at, Len(prog.ins), {})
 RateBroken(prog, at) ==         \* some requirement of a unit that cannot be dropped fails whatever is folded
-    \E n \in GenIns(prog) \cap CertLive(prog, at) : LET ins == prog.ins[n] IN \E j \in 1..Len(ins.a) :
+    \E n \in UnitIns(prog) \cap CertLive(prog, at) : LET ins == prog.ins[n] IN \E j \in 1..Len(ins.a) :
         LET a == OpAttr(ins.a[j], prog.ctl, at) IN
         \/ NeedAudio(ins, j) /\ a.hi < 2 /\ ~(a.mz /\ ClassTab[ins.cls].audFrom > 0)   \* output units turn a literal 0 into silence
         \/ NeedSame(ins, j) /\ (a.hi < ins.rate \/ a.lo > ins.rate)
